@@ -3576,6 +3576,14 @@ async def _helper_rename_inbox(inbox: Mailbox, new_name: str) -> None:
     new_msg_keys = []
     sequences: Sequences = defaultdict(set)
 
+    # NOTE: Every message is copied, and the new mailbox with all the flags
+    #       is saved, before any message is removed from the inbox. If we are
+    #       killed half way the inbox still has every message with its flags
+    #       (removing them one by one as they were copied left the ones
+    #       already moved in the new folder without their flags, and unknown
+    #       to the db.)
+    #
+    moved_keys = []
     for key in (int(x) for x in inbox.mailbox.keys()):
         try:
             msg = inbox.get_msg(key)
@@ -3586,15 +3594,11 @@ async def _helper_rename_inbox(inbox: Mailbox, new_name: str) -> None:
         new_mbox.next_uid += 1
         new_msg_key = int(new_mbox.mailbox.add(msg))
         new_msg_keys.append(new_msg_key)
+        moved_keys.append(key)
 
         for seq in inbox.sequences.keys():
             if key in inbox.sequences[seq]:
                 sequences[seq].add(new_msg_key)
-
-        try:
-            inbox.mailbox.remove(str(key))
-        except KeyError:
-            pass
 
     async with new_mbox.mh_sequences_lock:
         new_mbox.uids = uids
@@ -3606,6 +3610,12 @@ async def _helper_rename_inbox(inbox: Mailbox, new_name: str) -> None:
         new_mbox.optional_resync = False
         new_mbox.set_sequences_in_folder(sequences)
         await new_mbox.commit_to_db()
+
+    for key in moved_keys:
+        try:
+            inbox.mailbox.remove(str(key))
+        except KeyError:
+            pass
 
     inbox.optional_resync = False
 
